@@ -344,6 +344,12 @@ func (S *Specs) parseClause(file string, line int, cur *FuncSpec, word, rest str
 		cur.Opaque = true
 	case "trusted":
 		cur.Trusted = true
+	case "deterministic":
+		props, _ := takeProps(rest)
+		if props == nil {
+			props = cur.Props
+		}
+		cur.Frames = append(cur.Frames, &Clause{Text: "deterministic", Props: props, Name: "deterministic", Line: line})
 	case "noinline":
 		cur.NoInline = true
 	case "inline":
